@@ -141,7 +141,7 @@ class BaseStorage:
             await queue.put((sub_id, None))
 
     async def unsubscribe(self, client_id, sub_id=None):
-        if sub_id:
+        if sub_id is not None:
             try:
                 sub = self.clients[client_id][sub_id]
                 queue = sub.queue
